@@ -114,6 +114,63 @@ func genC11(repo string) (string, error) {
 			return "", err
 		}
 	}
+	// hot-region: the two StoreStateFilter literals of filterDstStores (move peer, transfer leader) and their filter lists
+	hr, err := goast.Load(repo, "server/schedulers/hot_region.go")
+	if err != nil {
+		return "", err
+	}
+	fds, err := hr.Func("balanceSolver", "filterDstStores")
+	if err != nil {
+		return "", err
+	}
+	if err := c10Flags(&o, hr, fds, "hot_move_flags", "hot_leader_flags"); err != nil {
+		return "", err
+	}
+	fmt.Fprintf(&o.sb, "Definition src_hot_filterDstStores : string := (* hot_region.go *)\n  %s.\n", goast.Q(hr.Src(fds.Body)))
+	// shuffle-hot-region: randomSchedule
+	sh, err := goast.Load(repo, "server/schedulers/shuffle_hot_region.go")
+	if err != nil {
+		return "", err
+	}
+	rsf, err := sh.Func("shuffleHotRegionScheduler", "randomSchedule")
+	if err != nil {
+		return "", err
+	}
+	if err := c10Flags(&o, sh, rsf, "shuffle_hot_flags"); err != nil {
+		return "", err
+	}
+	el, err = c10ast.CompositeElems(sh, rsf, "filters")
+	if err != nil {
+		return "", err
+	}
+	o.strList("shuffle_hot_filters", el, "shuffle-hot-region randomSchedule: target filters")
+	mv, err := co.Func("", "CreateMoveLeaderOperator")
+	if err != nil {
+		return "", err
+	}
+	ch, err := c10ast.ReturnChain(co, mv)
+	if err != nil {
+		return "", err
+	}
+	o.strList("chain_CreateMoveLeaderOperator", ch, "create_operator.go: CreateMoveLeaderOperator")
+	// grant-leader: the forced transfer
+	gl, err := goast.Load(repo, "server/schedulers/grant_leader.go")
+	if err != nil {
+		return "", err
+	}
+	if err := o.skeleton(gl, "grantLeaderScheduler", "Schedule", "skel_grant_Schedule",
+		goast.SkelOpt{Calls: set("RandFollowerRegion", "CreateForceTransferLeaderOperator", "CreateTransferLeaderOperator"), Conds: true}); err != nil {
+		return "", err
+	}
+	// scatter-range delegates to a balance-leader and a balance-region scheduler
+	sr2, err := goast.Load(repo, "server/schedulers/scatter_range.go")
+	if err != nil {
+		return "", err
+	}
+	if err := o.skeleton(sr2, "scatterRangeScheduler", "Schedule", "skel_scatter_range_Schedule",
+		goast.SkelOpt{Calls: set("Schedule", "IsScheduleAllowed", "allowBalanceLeader", "allowBalanceRegion", "SetDesc"), Conds: true}); err != nil {
+		return "", err
+	}
 	// shuffle-region: how the new peer is chosen
 	sr, err := goast.Load(repo, "server/schedulers/shuffle_region.go")
 	if err != nil {
